@@ -14,8 +14,19 @@ S2  the same run's state dump holds, for every input, the expected result of eve
     must return it, and thresholded it must be the adjacency matrix.  A second family of the
     model (two atoms, every class of displacements modulo the box, one box per tilt pattern
     = which pairs of box vectors are not perpendicular) carries this through the whole box.
+    The arrays handed to the real CellList run through every kind of caller's array of the
+    specification (float32 / float64 / integer, C / Fortran order, row- and column-strided and
+    reversed views), one set of argument objects serves all calls on a cell list, and after every
+    call the arrays are compared with snapshots (ArgsAfter: a call changes no caller's array).
+    specs/C14/CellSession.tla (S1-session / S2-session): every construction form (ndarray /
+    AtomArray, with / without own box, box= given / not given / different, periodic flag: the
+    box that counts is EffBox), every kind of every array (incl. write-protected ones, which may
+    be refused) and every history of 2 (thorough: 3) calls on one cell list with the same
+    argument objects; the complete histories are replayed against the real CellList.
 S3  seeded larger systems (<= 60 atoms on the lattice / half lattice, clustered, collinear,
-    duplicated, far-away queries) are recorded and re-computed by TLC (specs/C14/Trace.tla).
+    duplicated, far-away queries) are recorded as sessions (random construction form and array
+    kinds, argument arrays used again by later calls, changed arrays logged) and re-computed by
+    TLC (specs/C14/Trace.tla).
 """
 
 from __future__ import annotations
@@ -30,8 +41,8 @@ PROPERTY = "C14"
 
 MANIFEST = {
     "technique": "TLA+ specification of CellList (declarative neighbour sets + implementation-shaped grid model, specs/C14) model-checked by TLC; TLC's expected results for every enumerated input replayed against the real CellList; recorded larger executions re-computed by TLC",
-    "level_text": "TLC enumerates bounded families of integer-lattice inputs (<=3 atoms incl. duplicates and collinear sets, cell sizes 1, 3/2, 2, 5 (1/2), ten radii from 0 to beyond the extent, integer radii with pairs exactly on the sphere, 133 (quick) / 517 (thorough) query points incl. points outside the bounding box and far away, selections, orthorhombic / rotated-orthogonal / triclinic / left-handed periodic boxes) plus two-atom systems whose displacement runs through every class of displacements modulo the box for boxes of all 8 tilt patterns (which of a.b, a.c, b.c are non-zero), and checks that the grid algorithm of celllist.pyx (minimum-coordinate origin, truncating cell index, clipped cell cube, ceil(radius/cell_size), 27 images) equals the declarative definition, that cell queries are supersets, that the adjacency matrix is symmetric and is the thresholded pairwise (minimum-image) distance matrix, and that the algorithm of the distance functions (orthogonal shortcut / 8 periodic copies) finds the shortest copy for every tabulated box. Every expected result is then compared with the real CellList (index arrays, masks, scalar and per-query radii, single and batched coordinates, ndarray and AtomArray input) and with the pairwise distance matrix returned by index_distance(periodic=True) / distance(box=...) (entries and thresholded form against the adjacency matrix) in crash-isolated processes; systems of up to 60 atoms on the lattice and half lattice are recorded and re-computed by TLC.",
-    "level_note": "Exact-arithmetic restriction: coordinates, boxes and cell sizes are integers or dyadic rationals, radii are integers or sqrt(k+1/2); nothing is decided about float32 rounding at cell borders or at the sphere for general coordinates. Periodic boxes are restricted to boxes for which TLC itself verified that 27 images contain a minimum image (Dom_Images27); strongly skewed boxes are outside the domain. The pairwise distance matrix of the library is required to be the minimum-image one only for boxes inside Dom_Images8 (the 8 copies examined by geometry.displacement contain a shortest one; verified by TLC for all 12 tabulated boxes), otherwise only not to be smaller. Results are compared as index sets (duplicates of periodic copies and padding order ignored). Exhaustive only for <=3 atoms; larger systems only through recorded executions. Trusted: TLC, the dump parser, numpy.",
+    "level_text": "TLC enumerates bounded families of integer-lattice inputs (<=3 atoms incl. duplicates and collinear sets, cell sizes 1, 3/2, 2, 5 (1/2), ten radii from 0 to beyond the extent, integer radii with pairs exactly on the sphere, 133 (quick) / 517 (thorough) query points incl. points outside the bounding box and far away, selections, orthorhombic / rotated-orthogonal / triclinic / left-handed periodic boxes) plus two-atom systems whose displacement runs through every class of displacements modulo the box for boxes of all 8 tilt patterns (which of a.b, a.c, b.c are non-zero), and checks that the grid algorithm of celllist.pyx (minimum-coordinate origin, truncating cell index, clipped cell cube, ceil(radius/cell_size), 27 images) equals the declarative definition, that cell queries are supersets, that the adjacency matrix is symmetric and is the thresholded pairwise (minimum-image) distance matrix, and that the algorithm of the distance functions (orthogonal shortcut / 8 periodic copies) finds the shortest copy for every tabulated box. Every expected result is then compared with the real CellList (index arrays, masks, scalar and per-query radii, single and batched coordinates, ndarray and AtomArray input) and with the pairwise distance matrix returned by index_distance(periodic=True) / distance(box=...) (entries and thresholded form against the adjacency matrix) in crash-isolated processes; the caller's arrays run through every element type and memory form of the specification (float32/float64/integer, C/Fortran order, row-/column-strided and reversed views) and are compared with snapshots after every call. A second model (CellSession) enumerates every construction form (ndarray / AtomArray with or without own box x box= absent / given / different x periodic flag; effective box EffBox, periodic without a box refused), every kind of every caller's array (coordinates, queries, per-query radii, selection, box; write-protected ones may be refused) and every history of 2 (thorough 3) calls out of 8 on one cell list with the same argument objects; every complete history is replayed against the real CellList. Systems of up to 60 atoms on the lattice and half lattice are recorded as such sessions and re-computed by TLC.",
+    "level_note": "Exact-arithmetic restriction: coordinates, boxes and cell sizes are integers or dyadic rationals, radii are integers or sqrt(k+1/2); nothing is decided about float32 rounding at cell borders or at the sphere for general coordinates. Periodic boxes are restricted to boxes for which TLC itself verified that 27 images contain a minimum image (Dom_Images27); strongly skewed boxes are outside the domain. The pairwise distance matrix of the library is required to be the minimum-image one only for boxes inside Dom_Images8 (the 8 copies examined by geometry.displacement contain a shortest one; verified by TLC for all 12 tabulated boxes), otherwise only not to be smaller. Results are compared as index sets (duplicates of periodic copies and padding order ignored). Exhaustive only for <=3 atoms; larger systems only through recorded executions. Write-protected float32 arrays and selections that are not one contiguous writable block are refused by the compiled code (ValueError); the statement is silent about them, so a refusal is accepted for exactly these kinds (RefusableKinds) and only an answer is judged. Histories are exhaustive up to 2 (3) calls; array kinds are those listed in CoordKindSeq / RadiiKindSeq / SelKindSeq. Trusted: TLC, the dump parser, numpy.",
 }
 
 SCALES = (1, 2)           # ticks per length unit (2 = half-lattice points)
@@ -1054,6 +1065,10 @@ def run(ctx):
         "Dom_Images27: periodic boxes are the twelve boxes of TabBoxes (all 8 tilt patterns), for each of which TLC checked that the 27 stored images contain a minimum image of every in-box displacement (strongly skewed boxes excluded)",
         "results are compared as sets of atom indices (padding and repeated periodic copies ignored); get_atoms_in_cells only as must <= result <= selection",
         "exhaustive model: <= 3 atoms; up to 60 atoms only through recorded executions",
+        "Dom_Form: construction form = (ndarray | AtomArray) x own box (none | B) x box= (none | B) x periodic flag; the effective box is EffBox (box= overrides the own box, boxes are ignored when not periodic, periodic without any box must be refused with any exception)",
+        "Dom_Kinds / Dom_KindValues: caller's arrays are float32, float64, int64, int32; C order, Fortran order, every second row / column / element of a larger array, both axes reversed, write-protected; integer kinds only where the values are integers (scale 1, integer radii)",
+        "RefusableKinds: a write-protected float32 array (coordinates, queries, radii, box) and a selection that is write-protected or not contiguous may be refused by a call (any exception, nothing changed); every other kind must be answered; an answer is always judged",
+        "sessions: histories of 2 (thorough 3) calls out of 8 (get_atoms scalar / per-query radii, index / mask, single position, get_atoms_in_cells scalar / per-query, adjacency matrix) on one cell list with one set of argument objects",
         "trusted: TLC, the dump parser of this driver, numpy",
     ]
     # ---- S1 (+ dump used by S2) -------------------------------------------------------
